@@ -9,20 +9,20 @@ from rules import durability as D
 
 
 def run(ctx):
-    L.lck8_acyclic(ctx)
-    L.lck9_no_blocking_under_lock(ctx)
-    L.lck10_no_reentrant_acquisition(ctx)
-    L.cnd1_condvars(ctx)
-    L.job1_pool_jobs(ctx)
-    S.erv2_request_shell(ctx)
-    S.erv1_final_pass(ctx)
-    LM.flw1_limit_arithmetic(ctx)
-    O.opt1_shared_optional_payload(ctx)
-    O.flw7_catalogue_lookups_on_query_path(ctx)
-    K.chk7_scalar_implementations(ctx)
-    L.cnd2_every_wakeup_condition_notifies(ctx)
-    M.ord13_top_n_limit_zero(ctx)
-    D.erv4_no_error_discarded(ctx)
+    ctx.run(L.lck8_acyclic)
+    ctx.run(L.lck9_no_blocking_under_lock)
+    ctx.run(L.lck10_no_reentrant_acquisition)
+    ctx.run(L.cnd1_condvars)
+    ctx.run(L.job1_pool_jobs)
+    ctx.run(S.erv2_request_shell)
+    ctx.run(S.erv1_final_pass)
+    ctx.run(LM.flw1_limit_arithmetic)
+    ctx.run(O.opt1_shared_optional_payload)
+    ctx.run(O.flw7_catalogue_lookups_on_query_path)
+    ctx.run(K.chk7_scalar_implementations)
+    ctx.run(L.cnd2_every_wakeup_condition_notifies)
+    ctx.run(M.ord13_top_n_limit_zero)
+    ctx.run(D.erv4_no_error_discarded)
     return ctx.finish(
         'Static analysis of compiler MIR: deadlock-freedom clauses (acyclic lock-order graph over '
         'all lock identities, no guard across blocking calls except tabled sites, paired condvar '
